@@ -149,11 +149,12 @@ def finish(prop, tier, seed, obligations, meta, t0, confirm=None):
     announced = []
     n_confirm = 0
     by_function = {}
+    cap = getattr(confirm, "max_calls", 4)     # replay searches are capped; a confirm that only looks up a recorded replay is not
     for o in refuted:
         extra = None
-        if confirm is not None and n_confirm >= 4 and o.function in by_function:
+        if confirm is not None and n_confirm >= cap and o.function in by_function:
             extra = dict(by_function[o.function], note="replay shared with another failed obligation of the same function")
-        elif confirm is not None and n_confirm < 4:
+        elif confirm is not None and n_confirm < cap:
             n_confirm += 1
             try:
                 extra = confirm(o)
